@@ -40,6 +40,12 @@ impl<K, V, S> HashMap<K, V, S> {
     pub fn verif_state(&self) -> State {
         self.table.verif_state()
     }
+
+    /// The key of the `n`-th element that the next key-adding calls will move out of the old
+    /// table (in the order the cached cursor yields them), if there is one.
+    pub fn verif_cursor_nth(&self, n: usize) -> Option<&K> {
+        self.table.verif_cursor_nth(n).map(|kv| &kv.0)
+    }
 }
 
 impl<K, V, S> HashMap<K, V, S>
@@ -65,6 +71,11 @@ impl<T, S> HashSet<T, S> {
     /// Reports the internal table state.
     pub fn verif_state(&self) -> State {
         self.map.verif_state()
+    }
+
+    /// See [`HashMap::verif_cursor_nth`].
+    pub fn verif_cursor_nth(&self, n: usize) -> Option<&T> {
+        self.map.verif_cursor_nth(n)
     }
 }
 
